@@ -9,7 +9,8 @@ C06 — Result completeness: every reported sample is written once, well-formed,
 (iv)  the pool's await loop (`Model.C06Pool`); (v) `Engine.Run` over any number of pools and the context tree of
       `runAsync` (`Model.C06Engine`); (vi) a sink that starts to reject writes (`Model.C06SinkFail`);
 (vii) the error the encoder aggregator ends with when several faults coincide (`Model.C06ErrJoin`; `errutil.Join`
-      and the deferred joins of `Run` regenerated).
+      and the deferred joins of `Run` regenerated); (viii) samples lent to the aggregator and recycled by their
+      owner (`Model.C06Borrow`).
 The tie of the models to the running code is the correspondence harness (harness/cmd/c06).
 -/
 import Pandora.Bridge.C06Phout
@@ -23,6 +24,7 @@ import Pandora.Proofs.C06PoolLive
 import Pandora.Proofs.C06SinkFail
 import Pandora.Bridge.C06ErrJoin
 import Pandora.Proofs.C06ErrJoin
+import Pandora.Proofs.C06Borrow
 
 namespace Pandora.Props.C06
 open Pandora.Model.Phout Pandora.Proofs.C06
@@ -1044,5 +1046,35 @@ theorem C06_encoder_join_firstwins_counterexample :
   revert this; decide
 
 end ErrJoin
+
+/-! ## (viii) samples lent to the aggregator (`core.BorrowedSample`) -/
+
+section Borrow
+open Pandora.Model.C06Borrow Pandora.Proofs.C06Borrow
+
+/-- **a recycled sample object is written with the values it was reported with** — the reporter owns any number
+of sample objects, overwrites a free one for every report and gets it back through `Return()` (from `handleSample`
+AFTER `Encode`, or from `dropSample` when the queue is full); whatever the interleaving of reports (accepted or
+dropped), handling and re-use: every line written holds exactly the values of the report it stands for. The order
+`Encode` … `ReturnSampleIfBorrowed` is pinned by `Bridge.AggQ.encoderHandleSample_eq`, the drop path by
+`reporterDropSample_eq`; tied on the real aggregator by the harness's `borrow=` cases. -/
+theorem C06_borrowed_written_as_reported (trace : List Ev) :
+    ∀ p, p ∈ (run false {} trace).out → p.1 = p.2 :=
+  (inv_run trace inv_init).o
+
+/-- non-vacuity: two objects in flight, a dropped report, object 0 re-used after it came back -/
+example :
+    (run false {} [.report 0 7 true, .report 1 8 true, .report 2 5 false, .handle, .report 0 9 true, .handle,
+        .handle]).out = [(7, 7), (8, 8), (9, 9)] := by decide
+
+/-- handing the object back BEFORE it is encoded does not have the property: the owner re-uses it and the line
+of the first report carries the values of the second -/
+theorem C06_borrowed_early_return_counterexample :
+    ¬ (∀ trace : List Ev, ∀ p, p ∈ (run true {} trace).out → p.1 = p.2) := by
+  intro h
+  have := h [.report 0 1 true, .earlyReturn, .report 0 2 true, .lateEncode] (2, 1) (by decide)
+  simp at this
+
+end Borrow
 
 end Pandora.Props.C06
